@@ -199,3 +199,57 @@ package core
 //@   call validateGroupTransition#0: assert [C07:the-new-group-is-validated-against-the-group-the-node-is-running] arg1 == bp.group && arg2 == dkgOutput.New.FinalGroup && newShare == dkgOutput.New.KeyShare
 //@   call storeDKGOutput#0: assert [C07:the-group-and-share-stored-are-the-validated-ones] arg2 == newGroup && arg3 == newShare
 //@   call TransitionNewGroup#0: assert [C07:the-group-and-share-armed-are-the-validated-ones] arg2 == newShare && arg3 == newGroup
+
+// ---- C14: the daemon's routing tables are maps shared between the gRPC handlers and the control API -------------------------
+// Go maps are not safe for concurrent use: a read racing with LoadBeacon / Stop writing the table is a fatal runtime error
+// ("concurrent map read and map write") that no recovery interceptor contains. Every access has to hold dd.state.
+//@ guarded DrandDaemon.beaconProcesses by state
+//@ guarded DrandDaemon.chainHashes by state
+
+//@ iface (github.com/drand/drand/v2/protobuf/dkg.DKGControlServer).Command(s, ctx, c) (r, err)
+//@   trusted the DKG process (dkg.Process.Command is verified under C08 / C14)
+//@   modifies nothing
+//@ iface (github.com/drand/drand/v2/protobuf/dkg.DKGControlServer).Packet(s, ctx, p) (r, err)
+//@   trusted the DKG process (dkg.Process.Packet is verified under C14)
+//@   modifies nothing
+//@ iface (github.com/drand/drand/v2/protobuf/dkg.DKGControlServer).BroadcastDKG(s, ctx, p) (r, err)
+//@   trusted the DKG process (dkg.Process.BroadcastDKG is verified under C14)
+//@   modifies nothing
+//@ iface (github.com/drand/drand/v2/protobuf/dkg.DKGControlServer).DKGStatus(s, ctx, r) (res, err)
+//@   trusted the DKG process
+//@   modifies nothing
+
+//@ func (*DrandDaemon).Packet(dd, ctx, packet) (res, err)
+//@   props C14
+//@   flags lockcheck nopanic recovered
+//@   requires [C14] dd.dkg != nil
+//@ func (*DrandDaemon).BroadcastDKG(dd, ctx, packet) (res, err)
+//@   props C14
+//@   flags lockcheck nopanic recovered
+//@   requires [C14] dd.dkg != nil
+//@ func (*DrandDaemon).DKGStatus(dd, ctx, request) (res, err)
+//@   props C14
+//@   flags lockcheck nopanic recovered
+//@   requires [C14] dd.dkg != nil
+//@ func (*DrandDaemon).KeypairFor(dd, beaconID) (kp, err)
+//@   props C14
+//@   flags lockcheck nopanic recovered
+// ---- C10: follow mode pins the operator's chain hash and retries after a failed attempt -----------------------------------
+// The retry loop hands the result of each Sync attempt over a channel: the goroutine that runs the attempt requires
+// that channel to exist (checked where the goroutine is started), and never operates on a nil channel.
+//@ func (*BeaconProcess).StartFollowChain$2()
+//@   props C10
+//@   flags nilchan
+//@   requires [C10:the-attempt-result-channel-exists] errChan != nil
+// [wf]: well-formedness assumption about the sync manager NewSyncManager returned (never an obligation of a caller)
+//@   requires [wf] syncer != nil && beacon.syncConfigured(syncer)
+
+//@ extern (*BeaconProcess).sendProgressCallback(bp, ctx, stream, upTo, info, clk) (cb, done)
+//@   trusted builds the progress-reporting callback of the control API and its done channel; touches no store and no sync state
+//@   modifies nothing
+
+//@ func (*BeaconProcess).StartFollowChain(bp, ctx, req, stream) (err)
+//@   props C10
+//@   requires bp.log != nil && bp.opts != nil && bp.priv != nil && bp.priv.Public != nil
+//@   call createDBStore#0: assert [C10:nothing-is-stored-before-the-peer-info-matched-the-pinned-chain-hash] bytesEq(chain.infoHashOf(info), hash) && info != nil
+//@   call NewSyncManager#0: assert [C10:the-syncer-verifies-against-the-pinned-info] arg1 != nil && arg1.Info == info && bytesEq(chain.infoHashOf(info), hash)
